@@ -17,7 +17,15 @@
 From Coq Require Import ZArith.
 From XV Require Import lib.Bytes lib.Xml lib.Schema C19.Form C19.Types C19.Model C19.Spec C19.ProofsLib
   C19.ProofsA C19.ProofsB C19.ProofsC C19.ProofsD C19.ProofsE C19.ProofsF C19.ProofsG
-  C19.ProofsForm1 C19.ProofsForm2 C19.ProofsForm3.
+  C19.ProofsForm1 C19.ProofsForm2 C19.ProofsForm3 C19.ProofsForm4 gen.Payloads C19.ProofsGen.
+
+(* ---- the constants of the models are those of the source (regenerated on every run) ---- *)
+
+Theorem C19_tables_are_source :
+  gen_payload_ns = model_ns /\ (gen_hash_parse = hash_table /\ gen_hash_string = hash_table) /\
+  gen_pubsub_conditions = pubsub_conditions /\ gen_form_consts = model_form_consts /\ gen_reason_spam = reason_spam.
+Proof. exact tables_are_source. Qed.
+Print Assumptions C19_tables_are_source.
 
 (* ---- generic ---- *)
 
@@ -477,6 +485,13 @@ Theorem C19_form_constructors_no_panic : forall jp, (forall s, safe (jp s)) ->
   (forall d, safe (submit jp d)).
 Proof. exact form_api_no_panic. Qed.
 Print Assumptions C19_form_constructors_no_panic.
+
+(* stronger: Get, TokenReader and Submit always return a value (an element): an address jid.Parse
+   rejects is simply not written *)
+Theorem C19_form_always_yields : forall jp, (forall s, safe (jp s)) ->
+  (forall d id, yields (get jp d id)) /\ (forall d, yields (token_reader jp d)) /\ (forall d, yields (submit jp d)).
+Proof. exact form_api_always_yields. Qed.
+Print Assumptions C19_form_always_yields.
 
 (* the three panics of the pinned tree, as witnesses against its code *)
 Theorem C19_form_pinned_panics :
